@@ -71,8 +71,7 @@ def canon(e, env):
         return '(%s %s %s)' % (a, op, b)
     if k == 'Unary':
         if e['op'] == 'Not':
-            x = canon(e['ch'][0], env)
-            return x[1:] if x.startswith('!') else '!' + x
+            return _neg(canon(e['ch'][0], env))
         if e['op'] == 'Neg':
             return '-' + canon(e['ch'][0], env)
         return canon(e['ch'][0], env)
@@ -106,16 +105,59 @@ def canon(e, env):
     return src(e)
 
 
+def _neg(c):
+    """negation of a canonical predicate string (comparisons are flipped, not prefixed)"""
+    if c.startswith('!'):
+        return c[1:]
+    m = re.fullmatch(r'\((.+) (<=|<) (.+)\)', c)
+    if m and _balanced(m.group(1)) and _balanced(m.group(3)):
+        a, op, b = m.group(1), m.group(2), m.group(3)
+        return '(%s %s %s)' % (b, '<' if op == '<=' else '<=', a)
+    m = re.fullmatch(r'\((.+) (==|!=) (.+)\)', c)
+    if m and _balanced(m.group(1)) and _balanced(m.group(3)):
+        return '(%s %s %s)' % (m.group(1), '!=' if m.group(2) == '==' else '==', m.group(3))
+    return '!' + c
+
+
+def _balanced(s):
+    d = 0
+    for ch in s:
+        if ch == '(':
+            d += 1
+        elif ch == ')':
+            d -= 1
+            if d < 0:
+                return False
+    return d == 0
+
+
+def _matches_macro(e):
+    """`matches!(x, P)` = `match x { P => true, _ => false }` -> (scrutinee, [true patterns])"""
+    if e.get('k') != 'Match' or try_operand(e) is not None:
+        return None
+    tr = []
+    for a in e.get('arms', []):
+        b = peel(a['body'])
+        if b.get('k') != 'Lit' or b.get('v') not in ('true', 'false') or 'guard' in a:
+            return None
+        if b['v'] == 'true':
+            tr.append(pat_src(a['pat']))
+    return (e['ch'][0], tr) if tr else None
+
+
 def conj(e, env, positive=True):
-    """Condition -> list of canonical predicate strings (conjunction) or None if a negated
-    conjunction (kept as one opaque predicate)."""
+    """Condition -> list of canonical predicate strings (a conjunction)."""
     e = peel(e)
     if e.get('k') == 'Binary' and e['op'] in ('And', 'BitAnd') and positive:
         return conj(e['ch'][0], env) + conj(e['ch'][1], env)
+    if e.get('k') == 'Binary' and e['op'] in ('Or', 'BitOr') and not positive:
+        return conj(e['ch'][0], env, False) + conj(e['ch'][1], env, False)
     if e.get('k') == 'Unary' and e['op'] == 'Not':
-        inner = peel(e['ch'][0])
-        if not (inner.get('k') == 'Binary' and inner['op'] in ('And', 'BitAnd', 'Or', 'BitOr')):
-            return conj(inner, env, not positive)
+        return conj(e['ch'][0], env, not positive)
+    mm = _matches_macro(e)
+    if mm is not None:
+        p = '%s is %s' % (canon(mm[0], env), ' | '.join(mm[1]))
+        return [p if positive else '!' + p]
     if e.get('k') == 'LetExpr':
         pat = e['pat']
         init = canon(e['ch'][0], env)
@@ -132,9 +174,7 @@ def conj(e, env, positive=True):
         p = 'let %s = %s' % (pat_src(pat), init)
         return [p if positive else '!' + p]
     c = canon(e, env)
-    if positive:
-        return [c]
-    return [c[1:] if c.startswith('!') else '!' + c]
+    return [c if positive else _neg(c)]
 
 
 def _mutated_names(e):
